@@ -38,6 +38,7 @@ from apischema.metadata import flatten, required
 class Color(Enum):
     RED = "r"
     GREEN = "g"
+    CRIMSON = "r"      # an alias member: a second name of RED
 
 
 class Unser:
@@ -438,7 +439,7 @@ def run_setting(rep: common.Report, model: dict, cases: List[dict], st: Setting)
                 rep.violation(f"resolver {cname}.{r['name']}: arguments {got_a} but the model says {want_a} [{st.label}]", info)
     enum_t = schema.type_map.get("Color")
     n += 1
-    want_e = {st.enum_aliaser(k): getattr(mod.Color, k) for k in ("RED", "GREEN")}
+    want_e = {st.enum_aliaser(k): getattr(mod.Color, k) for k in ("RED", "GREEN", "CRIMSON")}
     if not isinstance(enum_t, graphql.GraphQLEnumType) or {k: v.value for k, v in enum_t.values.items()} != want_e:
         rep.violation(f"enum Color: {enum_t and {k: v.value for k, v in enum_t.values.items()}} but its members are {want_e} [{st.label}]", info0)
     # ---- roots: types and execution
